@@ -71,6 +71,8 @@ def streams(tier, rng):
         # the same conversion through the Timestamp::duration_since dispatcher the sampling loop uses,
         # with frequencies dividing 10^12 and spans >= 2^64 ps well represented (debug and release)
         Stream("tsc-conversion-dispatcher", "tscd", tsc + disp_extra(rng, 600 if tier == "quick" else 20000), nontrivial=nt_tsc),
+        # and through RawSample::duration, the elapsed time of a sample as the loop computes it (end before start = 0)
+        Stream("tsc-conversion-raw-sample", "tscs", tsc[: len(tsc) // 2] + disp_extra(rng, 200 if tier == "quick" else 5000), nontrivial=nt_tsc),
         Stream("tsc-conversion-dispatcher-release", "tscd", tsc[: len(tsc) // 3] + disp_extra(rng, 300 if tier == "quick" else 10000),
                nontrivial=nt_tsc, release=True),
     ]
